@@ -86,9 +86,16 @@ CHECKS = {
         "text": "prime(2^128+12451) by a kernel-checked Pratt certificate; Fp is a field (field_theory), inversion/pow/sqrt meet their "
                 "specifications (Fermat proved from the generator), one canonical 24-byte encoding, rejection exactly of length<>24 or value>=p, "
                 "generator of order p-1 and non-residue, ROOT_OF_UNITY=-1, DELTA=g^2, TWO_INV - all over the constants regenerated from the "
-                "source attributes. The ff_derive limb arithmetic itself is compared with the model on a boundary lattice squared (translation-"
-                "validation flavour), not proved.",
-        "note": "Trusted: Coq kernel + vm_compute for the certificate; the tie to ff_derive's generated code is the differential run.",
+                "source attributes. The 64-bit limb code ff_derive generates for Fp (mul_assign, square, mont_reduce, the invert / sqrt "
+                "addition chains, every constant: translated from rustc's macro-expanded source into Gallina on every run; add/sub/neg/double/"
+                "from_repr/to_repr/random/pow_vartime: hand-modelled) is PROVED, for all limb triples below the modulus, to return limbs below "
+                "the modulus that are the Montgomery form of the big-integer result (C07_limbs_*: ring operations, equality, invert, sqrt, "
+                "pow_vartime, Montgomery reduction with its dropped carry, the 24-byte codec byte for byte, From<u64>, random, the constants, "
+                "and a lifting theorem for every expression over the operators); the limb model is compared limb for limb with the Rust's "
+                "internal representation on every run.",
+        "note": "Trusted: Coq kernel + vm_compute for the certificate and the chain exponents; gen_limbs.py (reads rustc -Zunpretty=expanded "
+                "output; stable toolchain with RUSTC_BOOTSTRAP=1 or cargo +nightly); the transcription of ff's mac/adc/sbb; the hand-modelled "
+                "loop helpers (fingerprint of their expanded text recorded, limb-exact differential run).",
     },
     "C16": {
         "text": "Theorems over the Gallina model of adss (any message/coin length, any threshold, any permutation F in place of Keccak-f): "
